@@ -3,6 +3,7 @@ import json
 import subprocess
 
 import core
+from props import gosort
 
 PROP = dict(
     id="C07",
@@ -28,7 +29,8 @@ PROP = dict(
                 "library's sort.Stable yields a score-sorted permutation) — contract of sort.Stable, checked on every generated case by the driver "
                 "and the monitor. best_first_normalised additionally takes monotonicity of the score normalisation as a named premise (NormMono), "
                 "which is proved for every ScoreLaws type in C01's module (Wtf.Search.normalizeFuzzy_mono). The statements are about "
-                "strings.ToLower(strings.TrimSpace(query)), which is what the matcher sees; U+0130 is the only code point whose lower-casing "
+                "strings.ToLower(strings.TrimSpace(query)), which is what the matcher sees; Props/C07c.lean restates the SortOK theorems for the modelled "
+                "sort.Stable (Model/GoSort.lean) with no premise about the sort; U+0130 is the only code point whose lower-casing "
                 "leaves its simple-fold orbit (checked exhaustively). Float arithmetic of the normalised score is outside the proofs (§5)."),
     design_ref="DESIGN.md section 6, C07",
     rule=("fuzzy domain: pattern/target pairs (pools, sub-sequences of targets with re-casing, random strings over ASCII/Latin-1/Kelvin/dotted-I/"
@@ -38,13 +40,19 @@ PROP = dict(
           "with UseFuzzy off then on for thresholds {0,-100,-30,-5,1,50} x NLP off/on. A search case is non-trivial if the fallback answered at "
           "least once or a lexical answer was compared with typo tolerance on; a fuzzy case if it contains a match; distinct = distinct op sequences."),
     assumptions=["FoldOK: validated on every rune table of the run and exhaustively over all code points (obligation unicode:*)",
-                 "SortOK: sort.Stable contract; the driver rejects a Go order that is not a score-sorted permutation of the model's matches",
+                 "SortOK: discharged in Props/C07c.lean (genuine_sorted, best_first_sorted, best_first_reported_sorted, complete_sorted) for every "
+                 "parameter set whose fuzzySort is GoSort.fuzzyStable, the transliteration of Go's sort.Stable run with the library's non-strict "
+                 "Less, proved to be a score-sorted permutation (Proofs/GoSort.lean); tied to the toolchain by the gosort correspondence domain "
+                 "and by the fz line of every search case (Go's order compared with the model's); Props/C07.lean keeps SortOK as a premise",
                  "NormMono (best_first_normalised only): proved in C01's module for every ScoreLaws score type"],
 )
 
 THEOREMS = ["Wtf.C07." + t for t in (
     "no_override", "fallback_only_when_nothing", "accepts_iff_subseq", "refinement", "target_nul_free", "eqFold_laws", "no_panic",
-    "genuine", "best_first", "best_first_normalised", "complete", "empty_query_no_fallback", "normMono", "best_first_reported")]
+    "genuine", "best_first", "best_first_normalised", "complete", "empty_query_no_fallback", "normMono", "best_first_reported",
+    # Props/C07c.lean: SortOK discharged by the model of Go's sort.Stable (Model/GoSort.lean, Proofs/GoSort.lean)
+    "sortOK_of_goStable", "sortOK_modelledTuning", "genuine_sorted", "best_first_sorted", "best_first_reported_sorted", "complete_sorted",
+    "fallback_tie_order", "fuzzy_sort_closed_form")]
 
 ASSERTIONS = ["c07:fallback-sites", "c07:normalize-on-entry", "c07:threshold", "c07:cap", "c07:nul-guard", "c07:matcher-call",
               "c07:fuzzy-version", "c04:fuzzy-gate"]
@@ -87,7 +95,7 @@ def unicode_facts(ctx):
 
 def run(ctx):
     ctx.stage_xlate(required_assertions=ASSERTIONS)
-    ctx.stage_prove(THEOREMS)
+    ctx.stage_prove(THEOREMS, extra_targets=["WtfModel.Props.C07b", "WtfModel.Props.C07c"])
     if not ctx.stage_build():
         return
     quick = ctx.tier == "quick"
@@ -99,6 +107,8 @@ def run(ctx):
     r = ctx.correspond("fuzzy", 259, name="fuzzy-exhaustive", args={"exhaustive": "1", "maxt": "4" if quick else "5"},
                        nontrivial=nt_fuzzy, shrink=False, sample_n=0, seed_offset=1)
     ctx.exhaustive = True  # stream fuzzy-exhaustive: complete enumeration of its finite space (both tiers; larger in thorough)
+    # the library's final sort (tie order included): model of sort.Stable vs the toolchain's
+    gosort.correspond(ctx, 400 if quick else 6000)
     # paired UseFuzzy off/on searches across thresholds, NLP on and off
     r = ctx.correspond("search", 120 if quick else 1000, name="search-c07", args={"stream": "c07"}, shrink=False, nontrivial=nt_search)
     check_rune_tables(ctx, r, "search-c07")
